@@ -48,6 +48,7 @@ type profile struct {
 	budget     int     // runs in the quick tier (default 780; thorough = 8 times as many)
 	pLate      float64 // per wait group: late status deliveries while the group completes and the consumer is slow (default 0.06)
 	pMut       float64 // share of universe entries whose references are spelled as apply-time mutations (default 0.3)
+	noCorpus   bool    // check_all campaigns only (budget.go): the corpus was already run by an earlier profile of this process
 }
 
 var profiles = map[string]profile{
@@ -516,6 +517,9 @@ func genOpts(r *rand.Rand, p profile, k int, histSSA, allowDry bool) Opts {
 	o := Opts{Prune: !chance(r, p.pNoPrune), Policy: Policy(r.Intn(3)), ValPol: ValPol(r.Intn(2)),
 		Dry: p.dry[r.Intn(len(p.dry))], SSA: ssa, StatusEvents: chance(r, 0.25),
 		Prop: Prop(r.Intn(3)), StatusPolicyAll: chance(r, 0.3)}
+	if o.Prop == PropBackground && chance(r, 0.4) {
+		o.PropUnset = true // the option left empty: the defaulting of applier.go / destroyer.go (mutation campaign mutE)
+	}
 	if !allowDry {
 		o.Dry = DNone
 	} else if o.Dry == DNone {
@@ -2066,6 +2070,39 @@ func (c *collector) corpus() {
 			}
 		}
 	}
+	// 23. (mutation campaign mutE, applier.go localNamespaces) a tracked Namespace object leaves the apply set
+	// while the apply set still has an object in that namespace that is INVALID (graph-invalid: malformed
+	// depends-on; field-invalid: unknown apiVersion): the invalid object is not in the dependency graph, so
+	// only the LocalNamespacesFilter (computed from ALL local objects) spares the namespace — with a valid
+	// object the namespace edge of the graph (strategy mismatch) spares it as well and hides the filter
+	{
+		for _, finv := range []bool{false, true} {
+			es := []UEntry{Entry("Namespace", "", otherNS), Entry("ConfigMap", otherNS, "cm-a"), Entry("ConfigMap", invNS, "cm-b")}
+			if finv {
+				es = []UEntry{Entry("Namespace", "", otherNS), EntryInvalid("apps/v9", "Deployment", otherNS, "dep-v9"), Entry("ConfigMap", invNS, "cm-b")}
+			}
+			un := NewUniverse(es)
+			ns, in, other := -1, -1, -1
+			for i, e := range un {
+				switch {
+				case e.Kind == KNs:
+					ns = i
+				case e.Meta.Namespace == otherNS:
+					in = i
+				default:
+					other = i
+				}
+			}
+			tracked := Cluster{NextUID: 100, HasInv: true, Inv: []int{ns, other}, Objs: []CObj{
+				CObj{ID: ns, UID: 1, Owner: OOurs, Ver: 1}.Applied(), CObj{ID: other, UID: 2, Owner: OOurs, Ver: 1}.Applied()}}
+			sort.Slice(tracked.Objs, func(i, j int) bool { return tracked.Objs[i].ID < tracked.Objs[j].ID })
+			sort.Ints(tracked.Inv)
+			bad := LObj{ID: in, Ver: 1, BadDep: !finv, FInv: finv}
+			for _, pol := range []Policy{PMustMatch, PAdoptAll} {
+				c.fixedHistory(un, tracked, []fixedRun{{local: []LObj{bad, {ID: other, Ver: 1}}, opts: Opts{Prune: true, Policy: pol, ValPol: VSkipInvalid}}})
+			}
+		}
+	}
 	// a plain round trip: apply two, apply one (prune), destroy
 	c.fixedHistory(u, Cluster{NextUID: 100}, []fixedRun{
 		{local: []LObj{{ID: 0, Ver: 1}, {ID: 1, Ver: 1, Deps: []int{0}}}, opts: Opts{Prune: true, Policy: PMustMatch}},
@@ -2317,8 +2354,12 @@ func runProfile(p profile, seed int64, tier, outDir string) (*emit.Summary, erro
 		}
 	}
 	t0 := time.Now()
-	c.corpus()
-	budget -= c.runs
+	if !p.noCorpus {
+		c.corpus()
+	}
+	if p.check == "" {
+		budget -= c.runs // registered checks: the corpus counts; check_all campaigns: budget = generated runs
+	}
 	for budget > 0 {
 		c.base(r, p, &budget)
 	}
